@@ -2,9 +2,11 @@ package checks
 
 import (
 	"fmt"
+	"github.com/openziti/storage/boltz"
 	"strings"
 	"verif/explore"
 	"verif/report"
+	"verif/world"
 )
 
 // C15 — parent and child (extension) stores stay consistent.
@@ -55,5 +57,39 @@ func C15(tier string) int {
 		k2 := newKitchen("parent+children+indexes+fk+pets+links", kFeat{orgs: true, pets: true, places: true})
 		runE1(rep, k2, explore.Config{Programs: explore.SingleOps(len(k2.Ops())), MaxTrans: 8_000_000})
 	}
+	// what the parent store refuses, the child stores refuse too: a set element too large to be stored is rejected
+	// whichever store the entity comes through (the parent part of a child entity is persisted through a derived
+	// persist context, which must report its failures)
+	kh := newKitchen("parent+children; oversized set element through every store", kFeat{})
+	huge := strings.Repeat("N", 40000)
+	tr, nick := true, "n"
+	hops := append([]explore.Op{}, kh.Ops()...)
+	for _, via := range []string{"people", "mgr", "prof"} {
+		via := via
+		rec := func(id string) *world.Rec {
+			switch via {
+			case "mgr":
+				return kh.personRec(id, "C", []string{huge}, nil, &tr, nil)
+			case "prof":
+				return kh.personRec(id, "C", []string{huge}, nil, nil, &nick)
+			}
+			return kh.personRec(id, "C", []string{huge}, nil, nil, nil)
+		}
+		hops = append(hops, explore.Op{Name: "create@" + via + "(#p1,name=C,roles=[<40000 bytes>])",
+			Do:    func(ctx boltz.MutateContext) error { return kh.storeFor(via).Create(ctx, rec("#p1")) },
+			Apply: func(explore.Model) []string { return []string{"unusable-key", "exists", "dup"} }})
+		hops = append(hops, explore.Op{Name: "update@" + via + "(#p1,name=C,roles=[<40000 bytes>])",
+			Do:    func(ctx boltz.MutateContext) error { return kh.storeFor(via).Update(ctx, rec("#p1"), nil) },
+			Apply: func(explore.Model) []string { return []string{"unusable-key", "notfound", "dup"} }})
+	}
+	runE1(rep, &extraOpsScenario{Scenario: kh, ops: hops}, explore.Config{Programs: explore.SingleOps(len(hops)), MaxDepth: 2})
 	return rep.Finish()
 }
+
+// extraOpsScenario is a scenario with further operations appended to its alphabet.
+type extraOpsScenario struct {
+	explore.Scenario
+	ops []explore.Op
+}
+
+func (e *extraOpsScenario) Ops() []explore.Op { return e.ops }
